@@ -834,6 +834,7 @@ func (tr *fnTrans) specDecls() string {
 	var order []string
 	pure := &fnTrans{eng: tr.eng, c: c, compSort: map[string]Sort{}}
 	var emit func(name string)
+	var recDecls []string
 	bodyOf := func(fd *FunDecl) (string, []string, Sort) {
 		saved := c.home
 		if h := tr.eng.homeOf(fd.Where); h != nil {
@@ -883,17 +884,15 @@ func (tr *fnTrans) specDecls() string {
 		}
 		emitted[name] = ""
 		if fd.Rec {
-			// declare first so that the body may mention it
-			_, ps, rs := func() (string, []string, Sort) {
-				var ps []string
-				for _, p := range fd.Params {
-					s, _, _ := c.specSort(p.Sort)
-					ps = append(ps, s)
-				}
-				rs, _, _ := c.specSort(fd.Ret)
-				return "", ps, rs
-			}()
-			emitted[name] = fmt.Sprintf("(declare-fun %s (%s) %s)\n", q("f:"+name), strings.Join(ps, " "), rs)
+			// declared up front (recDecls) so that mutually recursive bodies may mention each other
+			var pss []string
+			for _, p := range fd.Params {
+				s, _, _ := c.specSort(p.Sort)
+				pss = append(pss, s)
+			}
+			rss, _, _ := c.specSort(fd.Ret)
+			recDecls = append(recDecls, fmt.Sprintf("(declare-fun %s (%s) %s)\n", q("f:"+name), strings.Join(pss, " "), rss))
+			emitted[name] = ""
 		}
 		before := map[string]bool{}
 		for k := range c.usedFuns {
@@ -995,8 +994,19 @@ func (tr *fnTrans) specDecls() string {
 	for _, d := range c.decls[tr.declMark():] {
 		_ = d
 	}
+	// uninterpreted functions first, then the declarations of recursive ones, then definitions and axioms
 	for _, n := range order {
-		sb.WriteString(emitted[n])
+		if strings.HasPrefix(emitted[n], "(declare-fun") {
+			sb.WriteString(emitted[n])
+		}
+	}
+	for _, d := range recDecls {
+		sb.WriteString(d)
+	}
+	for _, n := range order {
+		if !strings.HasPrefix(emitted[n], "(declare-fun") {
+			sb.WriteString(emitted[n])
+		}
 	}
 	for _, a := range sp.Axioms {
 		if s, ok := axText[a]; ok {
